@@ -125,6 +125,7 @@ type fn struct {
 	needRead, needWrite   bool
 	text, err             string
 	stext, serr           string // the streaming translation of a reader function (and why there is none)
+	wtext, werr           string // the call-by-call translation of a writer function (and why there is none)
 }
 
 type mapEntry struct {
@@ -414,6 +415,7 @@ type tr struct {
 	stream string            // Lean name of the reader/writer state inside this function ("" if none)
 	monad  string            // "Err" | "HErr" | "SErr" (stream mode)
 	sm     bool              // stream mode: the reader is any byte source `S : Src σ` (namespace GenS)
+	wm     bool              // sink mode: the writer is any io.Writer state machine `K : Sink σ`, one K.put per binary.Write
 	// inside an arm `case geom.T:` of a type switch on g: "g.(geom.T)" → (bound variable, its type)
 	asserted map[string][2]string
 }
@@ -429,7 +431,26 @@ func (t *tr) lsfx() string {
 	if t.sm {
 		return "S"
 	}
+	if t.wm {
+		return "W"
+	}
 	return ""
+}
+
+// suffix of the binary.Write primitives and of the writer functions in sink mode
+func (t *tr) wsfx() string {
+	if t.wm {
+		return "W K"
+	}
+	return ""
+}
+
+// a block `(… : Except Err T)` that does not touch the writer, inside a sink-mode function
+func (t *tr) pureBlock(text string) string {
+	if !t.wm {
+		return text
+	}
+	return "liftW " + t.stream + " " + strings.ReplaceAll(text, "throwW "+t.stream+" ", "throw ")
 }
 
 func (t *tr) local(name string) string {
@@ -776,13 +797,13 @@ func (t *tr) call(c *ast.CallExpr) effect {
 		var text string
 		switch ty {
 		case "uint8":
-			text = "binWriteU8 " + wv + " " + ord + " " + s
+			text = "binWriteU8" + t.wsfx() + " " + wv + " " + ord + " " + s
 		case "uint32":
-			text = "binWriteU32 " + wv + " " + ord + " " + s
+			text = "binWriteU32" + t.wsfx() + " " + wv + " " + ord + " " + s
 		case "geom.Point":
-			text = "binWritePoint " + wv + " " + ord + " " + s
+			text = "binWritePoint" + t.wsfx() + " " + wv + " " + ord + " " + s
 		case "[]geom.Point", "geom.LineString", "geom.Path", "geom.MultiPoint":
-			text = "binWritePoints " + wv + " " + ord + " " + s
+			text = "binWritePoints" + t.wsfx() + " " + wv + " " + ord + " " + s
 		default:
 			fail("binary.Write of a %s", ty)
 		}
@@ -829,6 +850,12 @@ func (t *tr) call(c *ast.CallExpr) effect {
 	}
 	if t.sm && g.lean != "Read" {
 		head += "S S"
+	}
+	if t.wm && g.kind != "writer" {
+		fail("call of %s on the call-by-call writing path", fun)
+	}
+	if t.wm && g.lean != "Write" {
+		head += "W K"
 	}
 	if g.lean == "Read" || g.lean == "Write" {
 		// inside a body these names are the parameter standing for the Go function
@@ -1245,7 +1272,7 @@ func (t *tr) valueSwitch(x *ast.SwitchStmt, ind string) []string {
 	if def == "" {
 		def = "pure " + target
 	}
-	return []string{ind + "let " + target + " ← (" + strings.Join(append(arms, def), " else ") + " : Except " + t.monad + " " + lt(t.env[target]) + ")"}
+	return []string{ind + "let " + target + " ← " + t.pureBlock("("+strings.Join(append(arms, def), " else ")+" : Except "+t.monad+" "+lt(t.env[target])+")")}
 }
 
 // `return …, <error value>` → throw
@@ -1260,6 +1287,9 @@ func (t *tr) errReturn(r *ast.ReturnStmt) string {
 	}
 	if t.sm {
 		return "throw (SErr.wkb " + t.errOf(r.Results[len(r.Results)-1]) + ")"
+	}
+	if t.wm {
+		return "throwW " + t.stream + " " + t.errOf(r.Results[len(r.Results)-1])
 	}
 	if t.monad != "Err" {
 		fail("%s in package hex", show(r))
@@ -1364,6 +1394,9 @@ func (t *tr) typeSwitch(x *ast.TypeSwitchStmt, ind string) ([]string, int, bool)
 		lines := []string{ind + "let " + target + " ← (match " + g + " with"}
 		lines = append(lines, arms...)
 		lines = append(lines, ind+"  | _ => "+def+" : Except "+t.monad+" "+lt(t.env[target])+")")
+		if t.wm { // the block does not touch the writer: lifted as a whole
+			lines = strings.Split(strings.Replace(t.pureBlock(strings.Join(lines, "\n")), "liftW "+t.stream+" "+ind+"let "+target+" ← (", ind+"let "+target+" ← liftW "+t.stream+" (", 1), "\n")
+		}
 		return lines, 0, false
 	}
 	if def == "" {
@@ -1627,8 +1660,22 @@ func (w *world) translate(f *fn) { f.text = w.translateMode(f, false) }
 // `S : Src σ` (every binary.Read = one io.ReadFull of the value's size from S, then the in-memory decoding)
 func (w *world) translateStream(f *fn) { f.stext = w.translateMode(f, true) }
 
+// the call-by-call writing path: the same Go text of a writer function, translated with the writer as ANY
+// `io.Writer` state machine `K : Sink σ` (every binary.Write = ONE K.put of the value's encoding; an error —
+// the writer's or the package's — carries the writer state reached, i.e. what was handed over before it)
+func (w *world) translateSink(f *fn) {
+	if f.kind != "writer" {
+		fail("not a writer function")
+	}
+	sinkMode = true
+	defer func() { sinkMode = false }()
+	f.wtext = w.translateMode(f, false)
+}
+
+var sinkMode bool
+
 func (w *world) translateMode(f *fn, sm bool) string {
-	t := &tr{w: w, f: f, env: map[string]string{}, monad: "Err", sm: sm}
+	t := &tr{w: w, f: f, env: map[string]string{}, monad: "Err", sm: sm, wm: sinkMode}
 	if f.pkg == "hex" {
 		t.monad = "HErr"
 	}
@@ -1642,12 +1689,17 @@ func (w *world) translateMode(f *fn, sm bool) string {
 	if sm {
 		sig += "S {σ : Type} (S : Stream.Src σ)"
 	}
+	if t.wm {
+		sig += "W {σ : Type} (K : Sink.Sink σ)"
+	}
 	if f.needRead && sm {
 		sig += " (Read : ReadFnS σ)"
 	} else if f.needRead {
 		sig += " (Read : ReadFn)"
 	}
-	if f.needWrite {
+	if f.needWrite && t.wm {
+		sig += " (Write : WriteFnW σ)"
+	} else if f.needWrite {
 		sig += " (Write : WriteFn)"
 	}
 	for i, p := range f.params {
@@ -1658,6 +1710,10 @@ func (w *world) translateMode(f *fn, sm bool) string {
 		}
 		if i == 0 && f.kind == "writer" {
 			t.stream = p.name
+			if t.wm {
+				sig += " (" + p.name + " : σ)"
+				continue
+			}
 		}
 		sig += " (" + p.name + " : " + lt(p.typ) + ")"
 	}
@@ -1672,7 +1728,11 @@ func (w *world) translateMode(f *fn, sm bool) string {
 			sig += " (bs : Bytes) : Except Err (" + lt(f.results[0]) + " × Bytes) := do"
 		}
 	case "writer":
-		sig += " : Except Err Bytes := do"
+		if t.wm {
+			sig += " : Except (σ × Sink.WErr) σ := do"
+		} else {
+			sig += " : Except Err Bytes := do"
+		}
 	case "plain":
 		sig += " : Except " + t.monad + " (" + lt(f.results[0]) + ") := do"
 	}
@@ -1829,6 +1889,12 @@ func extract(repo string) int {
 			f.err = failures[len(failures)-1].msg
 			continue
 		}
+		// the call-by-call writing path (wkb.Write on any io.Writer): every writer function a second time
+		if f.kind == "writer" {
+			if !guard(f.name+" on the call-by-call writing path ("+f.file+")", func() { w.translateSink(f) }) {
+				f.werr = failures[len(failures)-1].msg
+			}
+		}
 		// the streaming path (wkb.Read behind any io.Reader): every reader function a second time
 		if f.kind == "reader" {
 			if !guard(f.name+" on the streaming path ("+f.file+")", func() { w.translateStream(f) }) {
@@ -1913,7 +1979,7 @@ func extract(repo string) int {
 	}
 
 	var b strings.Builder
-	b.WriteString("import GeomV.C05.GenLibS\n/-!\nREGENERATED on every run of `bin/check C05` by harness/cmd/c05/extract.go from encoding/wkb/*.go and\nencoding/hex/hex.go of the tree under test — do not edit.  `GeomV/C05/Tie.lean` proves these definitions\nequal to the hand-written model (`GeomV/C05/Model.lean`), so the C05 theorems are re-checked against\nwhat the source says now.  Vocabulary and its meaning: `GeomV/C05/GenLib.lean`.\n")
+	b.WriteString("import GeomV.C05.GenLibW\n/-!\nREGENERATED on every run of `bin/check C05` by harness/cmd/c05/extract.go from encoding/wkb/*.go and\nencoding/hex/hex.go of the tree under test — do not edit.  `GeomV/C05/Tie.lean` proves these definitions\nequal to the hand-written model (`GeomV/C05/Model.lean`), so the C05 theorems are re-checked against\nwhat the source says now.  Vocabulary and its meaning: `GeomV/C05/GenLib.lean`.\n")
 	for _, u := range w.unreach {
 		b.WriteString("not reachable from Read/Decode/Write/Encode, not translated: " + sanitize(u) + "\n")
 	}
@@ -1969,6 +2035,23 @@ func extract(repo string) int {
 		b.WriteString("\n" + f.stext + "\n")
 	}
 	b.WriteString(footerS)
+	// the writing path call by call: the writer functions once more, over any io.Writer (GenLibW.lean)
+	b.WriteString("\n/-! ### the writing path call by call: the same Go functions with the `io.Writer` as ANY writer state machine\n`K : Sink.Sink σ` (every `binary.Write` = ONE `K.put` of the value's encoding; an error carries the writer state reached: `GenLibW.lean`) -/\n")
+	for _, n := range order {
+		if n == "#map" {
+			continue
+		}
+		f := w.funcs[n]
+		if f.kind != "writer" || f.err != "" {
+			continue
+		}
+		if f.werr != "" {
+			b.WriteString("\ntheorem untranslatable_" + f.lean + "W : \"" + sanitize(f.name+" on the call-by-call writing path: "+f.werr) + "\" = \"\" := by decide\n")
+			continue
+		}
+		b.WriteString("\n" + f.wtext + "\n")
+	}
+	b.WriteString(footerW)
 	b.WriteString(footer)
 	fmt.Print(b.String())
 	if len(failures) > 0 {
@@ -1994,6 +2077,13 @@ const footerS = `
 def readS {σ : Type} (S : Stream.Src σ) : Nat → ReadFnS σ
   | 0 => fun _ => .error (.wkb .fuel)
   | fuel+1 => ReadS S (readS S fuel)
+`
+
+const footerW = `
+/-- ` + "`wkb.Write`" + ` on any writer, call by call, the recursion unrolled ` + "`fuel`" + ` times -/
+def writeW {σ : Type} (K : Sink.Sink σ) : Nat → WriteFnW σ
+  | 0 => fun w _ _ => throwW w Err.fuel
+  | fuel+1 => WriteW K (writeW K fuel)
 `
 
 const footer = `
